@@ -12,6 +12,8 @@ import (
 func resetEnvModels() {
 	tickerTimers = map[*value]*timer{}
 	codecTable = map[*value]*codecEntry{}
+	codecByToken = map[int]*codecEntry{}
+	codecSeq = 0
 	resetBadger()
 	hookFns = map[string]value{}
 }
@@ -267,6 +269,8 @@ type codecEntry struct {
 }
 
 var codecTable map[*value]*codecEntry
+var codecByToken map[int]*codecEntry
+var codecSeq int
 
 func deepCopy(v value, memo map[*value]*value) value {
 	switch v := v.(type) {
@@ -327,6 +331,9 @@ func deepCopy(v value, memo map[*value]*value) value {
 }
 
 func init() {
+	// The marshalled form is 8 bytes: a 4-byte magic and a 4-byte token that
+	// identifies the stored message. Copies of the bytes (through raftpb, the
+	// WAL, snapshots) therefore still decode.
 	marshal := func(fr *frame, a []value) value {
 		m := a[0].(iface)
 		if m.t == nil {
@@ -336,29 +343,47 @@ func init() {
 		if !ok || pv == nil {
 			return tuple{[]value(nil), mkErrorValue(fr.i, "proto: Marshal called with nil")}
 		}
-		buf := make([]value, 8)
-		for i := range buf {
-			buf[i] = uint8(0xC0 + i)
-		}
-		codecTable[&buf[0]] = &codecEntry{t: m.t, msg: deepCopy(*pv, map[*value]*value{})}
+		codecSeq++
+		codecByToken[codecSeq] = &codecEntry{t: m.t, msg: deepCopy(*pv, map[*value]*value{})}
+		buf := []value{uint8(0xC0), uint8(0xDE), uint8(0xC0), uint8(0x01),
+			uint8(codecSeq >> 24), uint8(codecSeq >> 16), uint8(codecSeq >> 8), uint8(codecSeq)}
 		return tuple{buf, iface{}}
+	}
+	lookupToken := func(data []value) *codecEntry {
+		if len(data) != 8 {
+			return nil
+		}
+		var b [8]byte
+		for i := range data {
+			c, ok := data[i].(uint8)
+			if !ok {
+				return nil
+			}
+			b[i] = c
+		}
+		if b[0] != 0xC0 || b[1] != 0xDE || b[2] != 0xC0 || b[3] != 0x01 {
+			return nil
+		}
+		return codecByToken[int(b[4])<<24|int(b[5])<<16|int(b[6])<<8|int(b[7])]
 	}
 	unmarshal := func(fr *frame, a []value) value {
 		data := a[0].([]value)
 		m := a[1].(iface)
 		pv := m.v.(*value)
-		if len(data) > 0 {
-			if e, ok := codecTable[&data[0]]; ok {
-				if !types.Identical(e.t, m.t) {
-					return mkErrorValue(fr.i, "proto: cannot parse (message type mismatch)")
-				}
-				*pv = deepCopy(e.msg, map[*value]*value{})
-				return iface{}
+		if e := lookupToken(data); e != nil {
+			if !types.Identical(e.t, m.t) {
+				return mkErrorValue(fr.i, "proto: cannot parse (message type mismatch)")
 			}
+			*pv = deepCopy(e.msg, map[*value]*value{})
+			return iface{}
 		}
 		// real bytes: use the message's own Unmarshal method when it has one (gogo-generated code)
-		if f := fr.i.prog.LookupMethod(m.t, nil, "Unmarshal"); f != nil {
-			return call(fr.i, fr, 0, f, []value{m.v, data})
+		if ms := fr.i.prog.MethodSets.MethodSet(m.t); ms != nil {
+			if sel := ms.Lookup(nil, "Unmarshal"); sel != nil {
+				if f := fr.i.prog.MethodValue(sel); f != nil {
+					return call(fr.i, fr, 0, f, []value{m.v, data})
+				}
+			}
 		}
 		if len(data) == 0 {
 			// empty input = message with all defaults
